@@ -127,6 +127,8 @@ def main(argv=None):
     ap.add_argument("--replay", default=None)
     a = ap.parse_args(argv)
     pid = a.pid.upper()
+    if a.replay:
+        a.replay = os.path.abspath(a.replay)      # the check runs in a scratch cwd
     ctx = Ctx(pid, a.tier, a.seed, a.replay)
     cwd = os.getcwd()
     try:
